@@ -125,6 +125,43 @@ NEEDS = {
            'a no-namespace document and a schema document written with xmlns="http://www.w3.org/2001/XMLSchema"'),
  'C20-4': ('xpath/selectors.py selector cache key keeps only the prefixes that occur in the path (default namespace dropped)',
            'the same unprefixed path text used on two documents with different default namespaces in one process'),
+ # ---- round 3
+ 'C02-5': ('simple_types.py XsdUnion.raw_decode: patterns matched against the UNION-normalised (collapsed) text instead of the active member\'s',
+           'a pattern-restricted union whose first matching member is xs:string / xs:normalizedString and a value whose blanks matter'),
+ 'C03-5': ('wildcards.py XsdWildcard.__copy__: the namespace set is shared with the copy',
+           'a named attribute group with anyAttribute combined with a second wildcard in one type, and another type using the group alone'),
+ 'C03-6': ('attributes.py iter_value_constraints: default tested before fixed',
+           '<xs:attribute ref="g" fixed="..."/> where the global g declares a default, attribute absent in the instance'),
+ 'C04-3': ('schemas.py iter_errors: identity tables of the root pass dropped when merging after a lazy run',
+           'a lazy resource in which no element reaches the lazy depth (lazy=2/3 on a shallow document) and a keyref violation'),
+ 'C04-4': ('simple_types.py XsdAtomicBuiltin.raw_decode: the skip-mode early return moved before whitespace normalisation',
+           'skip-mode decoding of values of built-in types written with leading / trailing blanks'),
+ 'C05-5': ('elements.py raw_encode: the missing-value guard of simple-content types uses is_emptiable()',
+           'strict encode of data whose text entry is missing for a simpleContent type on an int / decimal / date / boolean base'),
+ 'C05-6': ('jsonml.py element_encode: set_xmlns_context moved below the tag matching',
+           'JsonML encode of a document in which a non-root element declares the namespace its own tag uses'),
+ 'C06-5': ('xml_loader.py _lazy_iterparse: the namespace-scope pop on end events removed',
+           'a lazy resource with nested xmlns scopes below the root that close together, followed by more elements'),
+ 'C08-4': ('elements.py raw_decode (XSD 1.1): simple-content elements share the id_list of their parent',
+           'XSD 1.1, xs:ID attributes on sibling elements of a simple-content complex type, duplicated value'),
+ 'C08-5': ('identities.py XsdIdentity.build (XSD 1.1): a constraint used via ref= shares the elements dict of the referenced one',
+           'XSD 1.1 key / unique / keyref ref=, both parent elements selecting the same XsdElement (shared named type)'),
+ 'C10-5': ('elements.py raw_decode: (xsi:type, identity) pairs registered also for counters that are present but disabled',
+           'xsi:type content met OUTSIDE a closed key scope first, then inside the scope with duplicates'),
+ 'C10-6': ('xsd_globals.py get_instance_type: memo keyed by the lexical xsi:type string, ignoring the namespaces in scope',
+           'the same lexical xsi:type value met again where its prefix / the default namespace is bound differently'),
+ 'C12-4': ('loaders.py load_namespace: fetch base taken from settings.base_url (None) instead of the validator',
+           'allow="sandbox", locations= map pointing outside, namespace met through a wildcard during validation'),
+ 'C12-5': ('fetchers.py fetch_schema_locations: sandbox defaulting applied only when the source is not yet an XMLResource',
+           'package-level validation without schema, allow="sandbox", hint outside the directory of the document'),
+ 'C14-5': ('simple_types.py: a restriction of a union no longer appends its patterns when an outer step already pushed some',
+           'patterns on two derivation steps over a union: a value matching only the outer pattern is valid for the derived type, invalid for its base'),
+ 'C14-6': ('complex_types.py: the open-content restriction check became an elif of the defaultOpenContent branch',
+           'XSD 1.1: base with explicit suffix / none open content, derived type picking up a schema-level interleave default'),
+ 'C19-5': ('etree.py etree_getpath: the sibling count stops at the first different tag after the child',
+           'same-tag siblings that are not adjacent (a b a): the path of the first a selects all of them'),
+ 'C19-6': ('schemas.py _validate_references: the IDREF error is created with the dangling VALUE as object',
+           'a dangling IDREF: the error lands on the last element validated, an unrelated node'),
 }
 
 
@@ -148,7 +185,9 @@ def main():
         res = m.get('checks', {})
         ownq = res.get(own + '/quick')
         others = [k.split('/')[0] for k, v in res.items() if v['exit'] == 1 and not k.startswith(own)]
-        if ownq and ownq['exit'] == 1:
+        if m.get('status_on_current_tree'):
+            verdict = m['status_on_current_tree'].split(':')[0] + ' (repository fix 4add929 removed the mechanism)'
+        elif ownq and ownq['exit'] == 1:
             verdict = 'caught by %s quick (%s)' % (own, (ownq.get('first') or '').split(':')[0])
         elif others:
             verdict = 'not by %s; caught by %s' % (own, ', '.join(sorted(set(others))))
